@@ -1,6 +1,6 @@
 (* Properties/C14.v — C14: a checkpoint restores exactly the state at its log index.
    Only the property theorems (closed by [exact]) and non-vacuity examples. *)
-From ZV Require Import Common.Bytes Ckpt.Consts Ckpt.Model Ckpt.Proofs Ckpt.ProofsName Ckpt.ProofsValue Ckpt.ProofsPlan Ckpt.ProofsChain Ckpt.ProofsFetch Ckpt.ProofsOrder Ckpt.ProofsCrash Ckpt.ProofsSource Ckpt.ProofsReuse.
+From ZV Require Import Common.Bytes Ckpt.Consts Ckpt.Model Ckpt.Proofs Ckpt.ProofsName Ckpt.ProofsValue Ckpt.ProofsPlan Ckpt.ProofsChain Ckpt.ProofsFetch Ckpt.ProofsOrder Ckpt.ProofsCrash Ckpt.ProofsSource Ckpt.ProofsReuse Ckpt.ProofsCache.
 From Coq Require Import Permutation Sorted.
 Open Scope N_scope.
 
@@ -395,6 +395,35 @@ Theorem C14_reuse_links_all_sst : forall b src newn skip ln b' lc n j,
   exists nc, bd_lookup b' newn = Some nc /\ dir_lookup (cd_files nc) n = Some j.
 Proof. exact reuse_links_all_sst. Qed.
 Print Assumptions C14_reuse_links_all_sst.
+
+(* ---------- (5e) the HyperLogLog write cache around Backup and Restore ---------- *)
+
+(* Backup flushes the cache and then starts the checkpoint: the checkpoint holds the whole logical
+   content (engine + cache) of the backup instant *)
+Theorem C14_backup_flush_first_complete : forall s, backup_flush_then_capture s = h_logical s.
+Proof. exact backup_flush_first_complete. Qed.
+Print Assumptions C14_backup_flush_first_complete.
+
+(* handing the request to backupLoop first and flushing afterwards (seeded/C14-d2): what was only in
+   the cache is missing from the checkpoint. Replayed on the Go code by the HR cases. *)
+Theorem C14_backup_capture_first_refuted : exists s, backup_capture_then_flush s <> h_logical s.
+Proof. exact backup_capture_first_refuted. Qed.
+Print Assumptions C14_backup_capture_first_refuted.
+
+(* restoreFromPath lists the data directory after closeEng (whose cache flush may create files):
+   that is restore_plan on what is really there, to which C14_restore_plan_correct applies *)
+Theorem C14_restore_listed_when_closed : forall fs cur ck, restore_plan_listed fs cur cur ck = restore_plan fs cur ck.
+Proof. exact restore_listed_when_closed. Qed.
+Print Assumptions C14_restore_listed_when_closed.
+
+(* listing it before closeEng (seeded/C14-d1): a WAL file created by the close-time flush survives the
+   restore and is replayed. Replayed on the Go code by the HR cases with a 16 KB write buffer. *)
+Theorem C14_restore_stale_listing_refuted :
+  exists fs listed actual ck n,
+    is_log n = false /\ file_at fs ck n = None /\
+    let '(fs', cur', _) := restore_plan_listed fs listed actual ck in file_at fs' cur' n <> None.
+Proof. exact restore_stale_listing_refuted. Qed.
+Print Assumptions C14_restore_stale_listing_refuted.
 
 (* ---------- (6) value level, for ALL histories ---------- *)
 
